@@ -10,7 +10,7 @@ from xf import AnchorLost
 
 HDR = ("use vstd::prelude::*;\n#[allow(unused_imports)]\nuse crate::vx::*;\n"
        "#[allow(unused_imports)]\nuse crate::dns::wire_format::*;\n#[allow(unused_imports)]\nuse vstd::std_specs::iter::IteratorSpec;\n#[allow(unused_imports)]\nuse vstd::std_specs::hash::*;\n"
-       "#[allow(unused_imports)]\nuse crate::dns::*;\n#[allow(unused_imports)]\nuse crate::dns::rdata::*;\n#[allow(unused_imports)]\nuse crate::dns::header::*;\n"
+       "#[allow(unused_imports)]\nuse crate::dns::*;\n#[allow(unused_imports)]\nuse crate::dns::rdata::*;\n#[allow(unused_imports)]\nuse crate::dns::header::*;\n#[allow(unused_imports)]\nuse crate::dns::name::*;\n"
        "verus!{ broadcast use crate::vx::vx_axioms; }\n")
 
 RDATA_FILES = ['a', 'aaaa', 'afsdb', 'caa', 'cert', 'dhcid', 'dnskey', 'ds', 'eui', 'hinfo', 'ipseckey', 'isdn',
@@ -129,6 +129,7 @@ def apply(c):
             r is Ok ==> refs_ok(final(_name_refs)@, io_buf(final(out))), // @C03:suffix-table-valid,C07:suffix-table-valid
             r is Ok ==> Self::wf_cdec(io_buf(final(out)), io_buf(old(out)).len() as int, self, io_buf(final(out)).len() as int), // @C03:compressed-form-decodes,C07:pointers-expand-to-the-name
             r is Ok ==> io_buf(final(out)).len() - io_buf(old(out)).len() <= self.wf_enc().len(), // @C03:never-longer
+            r is Ok ==> (self.wf_enc().len() > 0 ==> io_buf(final(out)).len() > io_buf(old(out)).len()),
             r is Ok ==> (Self::wf_nocomp() ==> io_buf(final(out)) =~= io_buf(old(out)) + self.wf_enc()), // @C07:written-in-full
     {
         proof {
@@ -153,7 +154,7 @@ pub open spec fn cw_ok<'a, V: WireFormat<'a>, T: ?Sized>(o0: &T, o1: &T, refs1: 
 """, count=1)
 
     # ---------------------------------------------------------------- name.rs
-    add_header(c, 'dns/name.rs')
+    add_header(c, 'dns/name.rs', HDR.replace("#[allow(unused_imports)]\nuse crate::dns::name::*;\n", ""))
     c.rules('dns/name.rs')
     c.wrap_span('dns/name.rs', "const POINTER_MASK: u8", "const POINTER_MASK_U16: u16 = 0b1100_0000_0000_0000;")
     c.wrap('dns/name.rs', "pub struct Name<'a> {")
